@@ -201,23 +201,60 @@ def exec_trace(mem64, start, end, rnd, steps=300, entry=None):
     return sorted(pcs)
 
 
+MAP_FORMATS = ('z80', 'specemu', 'rzxplay', 'fuse', 'spud', 'specemu-log', 'zero-dec', 'zero-hex')
+TEXT_FORMATS = MAP_FORMATS[2:]
+SPECEMU_REGS = ("PC: 0x8492\tSP: 0x5E83", "IX: 0x304E\tIY: 0x5C3A", "HL: 0x3918\tHL': 0x2758", "DE: 0x1023\tDE': 0x369B",
+                "BC: 0xA3EA\tBC': 0x1521", "AF: 0x0022\tAF': 0x000A")
+
+
 def write_map(path, fmt, addrs):
+    """A code map file with the addresses addrs (any addresses: a reader keeps those in [START, END)).  The binary formats are
+    sets; the logs list the addresses in an order that is not sorted (fixed by the addresses themselves, so that --replay writes
+    the same file), some of them twice."""
     if fmt == 'z80':
         data = bytearray(8192)
         for a in addrs:
             data[a // 8] |= 1 << (a % 8)
         open(path, 'wb').write(data)
-    elif fmt == 'specemu':
+        return
+    if fmt == 'specemu':
         data = bytearray(65536)
         for a in addrs:
             data[a] = 1
         open(path, 'wb').write(data)
-    elif fmt == 'rzxplay':
-        open(path, 'w').write(''.join('$%04X\n' % a for a in addrs))
+        return
+    addrs = list(addrs)
+    if len(addrs) > 2 and sum(addrs) % 4:
+        r2 = random.Random(sum(addrs) * 65537 + len(addrs))
+        addrs += r2.sample(addrs, min(3, len(addrs)))
+        r2.shuffle(addrs)
+    if fmt == 'rzxplay':
+        lines = ['$%04X' % a for a in addrs]
     elif fmt == 'fuse':
-        open(path, 'w').write(''.join('0x%04x,%d\n' % (a, 1 + a % 7) for a in addrs))
+        lines = ['0x%04x,%d' % (a, 1 + a % 7) for a in addrs]
+    elif fmt == 'specemu-log':
+        lines = list(SPECEMU_REGS) + [''] + ['%04X  %5d\tNOP' % (a, (56789 + 4 * i) % 69888) for i, a in enumerate(addrs)] + [''] + list(SPECEMU_REGS)
+    elif fmt in ('zero-dec', 'zero-hex'):
+        lines = ['All numbers are in %sdecimal' % ('' if fmt == 'zero-dec' else 'hexa'), '']
+        lines += [('%d' if fmt == 'zero-dec' else '%x') % a + '\t%-5d\tNOP' % ((47 + 4 * i) % 69888) for i, a in enumerate(addrs)]
     else:
-        open(path, 'w').write(''.join('PC = %04X\n' % a for a in addrs))
+        lines = ['PC = %04X  HL = 0000  tstate = %05d  NOP' % (a, (12345 + 4 * i) % 70908) for i, a in enumerate(addrs)]
+    open(path, 'w').write('\n'.join(lines) + '\n')
+
+
+def map_file_choice(rnd2, fmt, start, end, share=0.4):
+    """(format, addresses outside [start, end) that the map file lists too).  A trace is of the whole program: it has addresses
+    below START and from END on (END itself when the routine that begins there is called); a reader must drop them.
+    rnd2: a generator of its own, the case generators' streams stay what they were."""
+    if rnd2.random() < 0.4:
+        fmt = rnd2.choice(TEXT_FORMATS)
+    outside = set()
+    if rnd2.random() < share:
+        k = rnd2.randrange(2, 400)
+        for a in (end, start - 1, start - k, end + 1, end + k, 65535):
+            if 0 <= a < 65536 and not start <= a < end and (a == end or rnd2.random() < 0.7):
+                outside.add(a)
+    return fmt, sorted(outside)
 
 
 DIR = re.compile(r'^([a-zA-Z]) (\$[0-9A-Fa-f]{4}|\d+)')
@@ -303,11 +340,13 @@ def out_cases(args):
             # termination, tiling and map-in-code are judged for it
             strict = 0
             mapaddrs = sorted(rnd.sample(range(start, end), rnd.randrange(1, max(2, (end - start) // 3))))
-        fmt = ''
+        fmt, outside = '', []
         if mapaddrs:
             fmt = rnd.choice(('z80', 'specemu', 'rzxplay', 'fuse', 'spud'))
+            if kind not in ('probe', 'sweep'):
+                fmt, outside = map_file_choice(random.Random(seed * 1000003 + k), fmt, start, end)
             mapf = os.path.join(sub, 'm%d.map' % k)
-            write_map(mapf, fmt, mapaddrs)
+            write_map(mapf, fmt, mapaddrs + outside)
             args_ += ['-m', mapf]
         if kind == 'probe':
             args_ += fx.get('args', [])
@@ -323,6 +362,7 @@ def out_cases(args):
                 if rnd.random() < 0.3:
                     args_ += ['-I', '%s=%s' % (name, rnd.choice(vals))]
         out.append(drive_out(sub, k, binf, args_, strict, start, end, mapaddrs, fmt, full, kind, org, mem))
+        out[-1]['map_outside'] = outside
         if kind == 'probe' and 'sites' in fx:
             rst_stats(out[-1], fx['sites'], fx['prog'])
     return out
@@ -510,12 +550,13 @@ def rst_cases(args):
         binf = os.path.join(sub, 'i%d.bin' % k)
         open(binf, 'wb').write(bytes(mem))
         args_ = ['-o', str(org), '-s', str(start), '-e', str(end)]
-        mapaddrs, fmt = [], ''
+        mapaddrs, fmt, outside = [], '', []
         if rnd.random() < 0.85:
             mapaddrs = exec_trace_rst(full, start, end, org + eoff, prog)
             fmt = rnd.choice(('z80', 'specemu', 'rzxplay', 'fuse', 'spud'))
+            fmt, outside = map_file_choice(random.Random(seed * 1000003 + k), fmt, start, end, 0.25)
             mapf = os.path.join(sub, 'm%d.map' % k)
-            write_map(mapf, fmt, mapaddrs)
+            write_map(mapf, fmt, mapaddrs + outside)
             args_ += ['-m', mapf]
         rstcfg = ''             # no skoolkit.ini: RSTHandlerConfig=8:B
         if rnd.random() < 0.75:
@@ -533,7 +574,69 @@ def rst_cases(args):
         if rnd.random() < 0.25:
             args_.append('-C')
         c = drive_out(sub, k, binf, args_, 1, start, end, mapaddrs, fmt, full, 'rst', org, mem, rstcfg)
+        c['map_outside'] = outside
         rst_stats(c, sites, prog)
+        out.append(c)
+    return out
+
+
+def beyond_cases(args):
+    """A sub-range [START, END) of a program whose trace is of the WHOLE program: END is an executed instruction (the target of a
+    CALL/JP when there is one) with the rest of the image behind it, START the beginning of the image or an executed instruction;
+    the map file (every format in turn) lists the whole trace and a few more addresses below START / above END."""
+    seed, n_cases, wd = args
+    from ..lib import cbuild
+    cbuild.repo_only()
+    rnd = random.Random(seed)
+    sub = os.path.join(wd, 'b%d' % seed)
+    os.makedirs(sub, exist_ok=True)
+    signal.signal(signal.SIGVTALRM, _alarm)
+    out = []
+    for k in range(n_cases):
+        org = rnd.choice((0x8000, 40000, 0x6000, 0xC000))
+        prog = {}
+        if rnd.random() < 0.6:
+            mem, eoff = gen_structured(rnd, org)
+        else:
+            prog = {8: 1} if rnd.random() < 0.5 else {n: rnd.choice((1, 2)) for n in rnd.sample(range(0, 64, 8), rnd.randrange(1, 3))}
+            mem, eoff, _ = gen_rst_program(rnd, org, prog)
+        size = len(mem)
+        full = [0] * 65536
+        full[org:org + size] = mem
+        trace = exec_trace_rst(full, org, org + size, org + eoff, prog)
+        # END: an executed instruction that another executed instruction calls / jumps to, else any executed instruction
+        ts = set(trace)
+        targets = sorted(set(t for a in trace if full[a] in (0xCD, 0xC3, 0xC4, 0xC2, 0xCC, 0xCA)
+                             for t in [full[a + 1] + 256 * full[a + 2]] if t in ts and t > org + 2))
+        later = [a for a in trace if a > org + 2]
+        if not later:
+            continue
+        end = rnd.choice(targets) if targets and rnd.random() < 0.8 else rnd.choice(later)
+        start = org
+        if rnd.random() < 0.35:
+            start = rnd.choice([a for a in trace if a < end - 1] or [org])
+        mapaddrs = [a for a in trace if start <= a < end]
+        outside = set(a for a in trace if not start <= a < end)
+        kk = rnd.randrange(2, 400)
+        outside |= set(a for a in (start - 1, start - kk, end + 1, end + kk, 65535) if 0 <= a < 65536 and rnd.random() < 0.5)
+        outside = sorted(a for a in outside if not start <= a < end)
+        binf = os.path.join(sub, 'i%d.bin' % k)
+        open(binf, 'wb').write(bytes(mem))
+        fmt = MAP_FORMATS[(seed + k) % len(MAP_FORMATS)]
+        mapf = os.path.join(sub, 'm%d.map' % k)
+        write_map(mapf, fmt, mapaddrs + outside)
+        args_ = ['-o', str(org), '-s', str(start), '-e', str(end), '-m', mapf]
+        rstcfg = ''
+        if prog and rnd.random() < 0.7:
+            args_.append('-r')
+            rstcfg = '' if prog == {8: 1} else rst_config_text(prog)
+        if rnd.random() < 0.2:
+            args_.append('-h' if rnd.random() < 0.6 else '-l')
+        if rnd.random() < 0.2:
+            args_.append('-C')
+        c = drive_out(sub, k, binf, args_, 1, start, end, mapaddrs, fmt, full, 'beyond', org, mem, rstcfg)
+        c['map_outside'] = outside
+        c['end_is_target'] = 1 if end in targets else 0
         out.append(c)
     return out
 
@@ -771,11 +874,11 @@ def out_replay(wd, rp, mapfmt):
     args_ = list(rp['args'])
     if '-m' in args_:
         mapf = os.path.join(wd, 'm0.map')
-        write_map(mapf, mapfmt, rp['map'])
+        write_map(mapf, mapfmt, list(rp['map']) + list(rp.get('map_outside', [])))
         args_[args_.index('-m') + 1] = mapf
     full = [0] * 65536
     full[org:org + len(mem)] = mem
     c = drive_out(wd, 0, binf, args_, rp['strict'], rp['start'], rp['end'], list(rp['map']), mapfmt, full, rp.get('image_kind', '?'), org, mem,
                   rp.get('rstcfg', ''))
-    c.update({k: v for k, v in rp.items() if k.startswith(('rst_', 'cut_')) and k not in c})         # (what the input is, see rst_stats)
+    c.update({k: v for k, v in rp.items() if k.startswith(('rst_', 'cut_', 'map_outside')) and k not in c})         # (what the input is, see rst_stats)
     return c
